@@ -24,9 +24,13 @@ import (
 	"strings"
 	"sync/atomic"
 
+	"gorm.io/driver/sqlite"
 	"gorm.io/gorm"
+	"gorm.io/gorm/clause"
+	"gorm.io/gorm/logger"
 
 	"verif/core"
+	"verif/dialects"
 	"verif/recdrv"
 	"verif/vdb"
 )
@@ -61,29 +65,107 @@ func (k *KV) BeforeDelete(tx *gorm.DB) error { return ghostWrite(tx) }
 
 const ghostKey = int64(1) << 40
 
-type cfg struct{ prep, noNested, skipDefault bool }
+// cfg: the three configuration switches of the statement, and wrapped: the handle's connection pool is a caller's
+// own gorm.ConnPool around the *sql.DB (it begins through the ConnPoolBeginner interface and hands out its own
+// gorm.Tx; the shape of tests/connpool_test.go) instead of the *sql.DB itself.
+type cfg struct{ prep, noNested, skipDefault, wrapped bool }
 
 func (c cfg) String() string {
-	return fmt.Sprintf("PrepareStmt=%v DisableNestedTransaction=%v SkipDefaultTransaction=%v", c.prep, c.noNested, c.skipDefault)
+	s := fmt.Sprintf("PrepareStmt=%v DisableNestedTransaction=%v SkipDefaultTransaction=%v", c.prep, c.noNested, c.skipDefault)
+	if c.wrapped {
+		s += " ConnPool=wrapper(*sql.DB)"
+	}
+	return s
 }
 
-var handles [8]*vdb.Handle
+const nHandles = 16
 
-func cfgOf(i int) cfg { return cfg{i&1 != 0, i&2 != 0, i&4 != 0} }
+var handles [nHandles]*vdb.Handle
+
+func cfgOf(i int) cfg { return cfg{i&1 != 0, i&2 != 0, i&4 != 0, i&8 != 0} }
+
+// poolWrap is a caller-side connection pool: every call goes to the *sql.DB below; transactions are begun through
+// ConnPoolBeginner and come back as a txWrap (a gorm.Tx that is not a *sql.Tx).
+type poolWrap struct{ db *sql.DB }
+
+func (p *poolWrap) PrepareContext(ctx context.Context, q string) (*sql.Stmt, error) {
+	return p.db.PrepareContext(ctx, q)
+}
+func (p *poolWrap) ExecContext(ctx context.Context, q string, a ...interface{}) (sql.Result, error) {
+	return p.db.ExecContext(ctx, q, a...)
+}
+func (p *poolWrap) QueryContext(ctx context.Context, q string, a ...interface{}) (*sql.Rows, error) {
+	return p.db.QueryContext(ctx, q, a...)
+}
+func (p *poolWrap) QueryRowContext(ctx context.Context, q string, a ...interface{}) *sql.Row {
+	return p.db.QueryRowContext(ctx, q, a...)
+}
+func (p *poolWrap) BeginTx(ctx context.Context, opts *sql.TxOptions) (gorm.ConnPool, error) {
+	tx, err := p.db.BeginTx(ctx, opts)
+	if err != nil {
+		return nil, err
+	}
+	return &txWrap{Tx: tx}, nil
+}
+func (p *poolWrap) GetDBConn() (*sql.DB, error) { return p.db, nil }
+
+type txWrap struct{ *sql.Tx }
 
 func initEnv(c *core.Ctx) {
 	for i := range handles {
 		k := cfgOf(i)
-		h, err := vdb.Open(vdb.Options{Config: gorm.Config{PrepareStmt: k.prep, DisableNestedTransaction: k.noNested, SkipDefaultTransaction: k.skipDefault}})
+		conf := gorm.Config{PrepareStmt: k.prep, DisableNestedTransaction: k.noNested, SkipDefaultTransaction: k.skipDefault}
+		h, err := vdb.Open(vdb.Options{Config: conf})
 		if err != nil {
 			panic(err)
 		}
 		if err := h.DB.AutoMigrate(&KV{}); err != nil {
 			panic(err)
 		}
+		if k.wrapped {
+			// the same database and recording driver, reached through the caller's own pool
+			conf.Logger = logger.Discard
+			conf.NowFunc = h.Clock.Now
+			db, err := gorm.Open(dialects.VSQLite{Dialector: sqlite.Dialector{Conn: &poolWrap{db: h.SQL}}}, &conf)
+			if err != nil {
+				panic(err)
+			}
+			h.DB = db
+		}
 		handles[i] = h
 	}
 }
+
+// rootForms: how the handle is obtained on which the outermost block / Begin() and the statements outside any
+// block are called. Every form is a reusable session of the opened handle.
+var rootForms = []string{"db", "db.Session{PrepareStmt}", "db.WithContext", "db.Session{NewDB}", "db.Debug", "db.Session{PrepareStmt,SkipHooks}.Session",
+	"db.Session{SkipDefaultTransaction}", "db.Session{DisableNestedTransaction}", "db.Session{PrepareStmt}.Session{PrepareStmt}", "db.Session{Context}"}
+
+func rootHandle(db *gorm.DB, form int) *gorm.DB {
+	switch form {
+	case 1:
+		return db.Session(&gorm.Session{PrepareStmt: true})
+	case 2:
+		return db.WithContext(context.Background())
+	case 3:
+		return db.Session(&gorm.Session{NewDB: true})
+	case 4:
+		return db.Debug()
+	case 5:
+		return db.Session(&gorm.Session{PrepareStmt: true, SkipHooks: true}).Session(&gorm.Session{})
+	case 6:
+		return db.Session(&gorm.Session{SkipDefaultTransaction: true})
+	case 7:
+		return db.Session(&gorm.Session{DisableNestedTransaction: true})
+	case 8:
+		return db.Session(&gorm.Session{PrepareStmt: true}).Session(&gorm.Session{PrepareStmt: true})
+	case 9:
+		return db.Session(&gorm.Session{Context: context.WithValue(context.Background(), ctxKey{}, "c04")})
+	}
+	return db.Session(&gorm.Session{})
+}
+
+type ctxKey struct{}
 
 type sentinel struct{ id int }
 
@@ -155,13 +237,13 @@ func (g *gen) block(depth int) *block {
 	for i := 0; i < n; i++ {
 		switch k := g.r.Intn(8); {
 		case k < 3:
-			b.items = append(b.items, item{kind: "write", via: g.via()})
+			b.items = append(b.items, item{kind: core.Pick(g.r, writeKinds), via: g.via()})
 		case k == 3 && g.r.Intn(3) == 0:
 			b.items = append(b.items, item{kind: "batch", via: g.via()})
 		case k == 3:
 			b.items = append(b.items, item{kind: "read", via: g.via()})
 		case k == 4:
-			b.items = append(b.items, item{kind: core.Pick(g.r, []string{"update", "delete", "update", "delete", "ghost-update", "ghost-delete"}), via: g.via()})
+			b.items = append(b.items, item{kind: core.Pick(g.r, mutateKinds), via: g.via()})
 		default:
 			if depth > 1 && g.blocks < 12 {
 				b.items = append(b.items, item{kind: "child", child: g.block(depth - 1)})
@@ -172,6 +254,15 @@ func (g *gen) block(depth int) *block {
 	}
 	return b
 }
+
+// writeKinds: an insert with a key chosen by the caller, or with a key the database assigns (the statement then
+// reads its key back: INSERT ... RETURNING runs as a query, not as an exec).
+var writeKinds = []string{"write", "write", "write", "write-auto"}
+
+// mutateKinds: the statement forms gorm executes along different paths. update / delete: Model(&KV{ID}).Update, Delete(&KV{ID});
+// -ret: the same with clause.Returning (executed as a query whose rows are scanned back); save: Save(&KV{ID, V}) of an
+// existing row; exec: Exec("UPDATE kvs SET ...") (raw statement); ghost-*: see ghostID.
+var mutateKinds = []string{"update", "delete", "update", "delete", "ghost-update", "ghost-delete", "update-ret", "update-ret", "delete-ret", "save", "exec"}
 
 func (b *block) String() string {
 	var parts []string
@@ -205,17 +296,41 @@ type world struct {
 	problems []string
 	trace    []string
 	outside  bool // the statement runs outside any block (runOutside)
+	txOpts   bool // Transaction / Begin receive an explicit (zero) *sql.TxOptions
 	// injectedSeen counts statement-level results (write / update / delete / read through a gorm handle)
 	// that carry the injected driver error: one driver call failed once, so at most one statement may
 	// report it; a second report means an earlier failure was kept somewhere and handed out again
 	injectedSeen int
 	reads        int
+	// rootForm: how the handle of the outermost block / Begin() / the outside statements is derived (rootForms)
+	rootForm int
+	// explicit: a Transaction block or a manual sequence is running (set by execute around it)
+	explicit bool
+	// firedIn: where the injected fault fired ("" = it did not): "explicit <kind> <query>" or "outside ..."
+	firedExplicit bool
+	firedAt       string
+	// heard: some call of the program (a statement, SavePoint, Commit, Begin, a Transaction block) returned the
+	// injected error
+	heard bool
+	// class of the first problem that belongs to one of the narrow classes (violation signature)
+	class string
 }
 
 func (w *world) note(err error) error {
 	var inj *recdrv.ErrInjected
 	if err != nil && errors.As(err, &inj) {
 		w.injectedSeen++
+		w.heard = true
+	}
+	return err
+}
+
+// hear records that a call returned the injected error without counting it as a statement-level report (the
+// result of a block repeats what a statement inside it returned; a manual handle keeps its error)
+func (w *world) hear(err error) error {
+	var inj *recdrv.ErrInjected
+	if err != nil && errors.As(err, &inj) {
+		w.heard = true
 	}
 	return err
 }
@@ -223,6 +338,17 @@ func (w *world) note(err error) error {
 func (w *world) add(f string, a ...interface{}) {
 	w.problems = append(w.problems, fmt.Sprintf(f, a...))
 }
+
+// addc adds a problem of a narrow class (its own violation signature)
+func (w *world) addc(class, f string, a ...interface{}) {
+	if w.class == "" {
+		w.class = class
+	}
+	w.add(f, a...)
+}
+
+// root returns a fresh handle of the program's root form
+func (w *world) root() *gorm.DB { return rootHandle(w.h.DB, w.rootForm) }
 
 func (w *world) snapshot() map[int64]string {
 	m := make(map[int64]string, len(w.state))
@@ -240,6 +366,25 @@ func (w *world) write(tx *gorm.DB) error {
 	w.trace = append(w.trace, fmt.Sprintf("write %d -> %v", id, err))
 	if err == nil {
 		w.state[id] = v
+	}
+	return err
+}
+
+// writeAuto: an insert whose key the database assigns; the model takes the key gorm wrote back into the value.
+func (w *world) writeAuto(tx *gorm.DB) error {
+	w.nextID++
+	kv := KV{V: fmt.Sprintf("a%d", w.nextID)}
+	err := w.note(tx.Create(&kv).Error)
+	w.trace = append(w.trace, fmt.Sprintf("write (key assigned by the database: %d) -> %v", kv.ID, err))
+	if err == nil {
+		if _, dup := w.state[kv.ID]; dup || kv.ID == 0 {
+			w.add("an insert without a key reported key %d, which is zero or the key of an existing row", kv.ID)
+			return nil
+		}
+		w.state[kv.ID] = kv.V
+		if kv.ID > w.nextID {
+			w.nextID = kv.ID
+		}
 	}
 	return err
 }
@@ -331,17 +476,37 @@ func (w *world) mutate(tx *gorm.DB, kind string) error {
 	}
 	sort.Slice(ids, func(i, j int) bool { return ids[i] < ids[j] })
 	id := ids[len(ids)/2]
-	if kind == "update" {
+	if kind != "delete" && kind != "delete-ret" {
 		nv := w.state[id] + "u"
-		err := w.note(tx.Model(&KV{ID: id}).Update("v", nv).Error)
-		w.trace = append(w.trace, fmt.Sprintf("update %d -> %v", id, err))
+		var res *gorm.DB
+		switch kind {
+		case "update":
+			res = tx.Model(&KV{ID: id}).Update("v", nv)
+		case "update-ret":
+			var out []KV
+			res = tx.Model(&out).Clauses(clause.Returning{}).Where("id = ?", id).Update("v", nv)
+		case "save":
+			res = tx.Save(&KV{ID: id, V: nv})
+		case "exec":
+			res = tx.Exec("UPDATE kvs SET v = ? WHERE id = ?", nv, id)
+		default:
+			panic("unknown statement kind " + kind)
+		}
+		err := w.note(res.Error)
+		w.trace = append(w.trace, fmt.Sprintf("%s %d -> %v", kind, id, err))
 		if err == nil {
 			w.state[id] = nv
 		}
 		return err
 	}
-	err := w.note(tx.Delete(&KV{ID: id}).Error)
-	w.trace = append(w.trace, fmt.Sprintf("delete %d -> %v", id, err))
+	var err error
+	if kind == "delete-ret" {
+		var out []KV
+		err = w.note(tx.Clauses(clause.Returning{}).Where("id = ?", id).Delete(&out).Error)
+	} else {
+		err = w.note(tx.Delete(&KV{ID: id}).Error)
+	}
+	w.trace = append(w.trace, fmt.Sprintf("%s %d -> %v", kind, id, err))
 	if err == nil {
 		delete(w.state, id)
 	}
@@ -461,6 +626,10 @@ func (w *world) runBlock(db *gorm.DB, b *block, nested bool) (err error) {
 			panic(p)
 		}
 	}()
+	var opts []*sql.TxOptions
+	if w.txOpts {
+		opts = append(opts, &sql.TxOptions{})
+	}
 	err = db.Transaction(func(tx *gorm.DB) (ferr error) {
 		fnRan = true
 		defer func() { fnOK = ferr == nil && recover2() }()
@@ -470,7 +639,11 @@ func (w *world) runBlock(db *gorm.DB, b *block, nested bool) (err error) {
 				if e := w.write(derive(tx, it.via)); e != nil {
 					return e
 				}
-			case "update", "delete", "ghost-update", "ghost-delete":
+			case "write-auto":
+				if e := w.writeAuto(derive(tx, it.via)); e != nil {
+					return e
+				}
+			case "update", "delete", "ghost-update", "ghost-delete", "update-ret", "delete-ret", "save", "exec":
 				if e := w.mutate(derive(tx, it.via), it.kind); e != nil {
 					return e
 				}
@@ -511,7 +684,7 @@ func (w *world) runBlock(db *gorm.DB, b *block, nested bool) (err error) {
 			w.trace = append(w.trace, fmt.Sprintf("T%d calls tx.Rollback() itself -> %v", b.id, e))
 			return nil
 		case "Commit":
-			e := tx.Commit().Error
+			e := w.hear(tx.Commit().Error)
 			w.trace = append(w.trace, fmt.Sprintf("T%d calls tx.Commit() itself -> %v", b.id, e))
 			return nil
 		}
@@ -522,8 +695,27 @@ func (w *world) runBlock(db *gorm.DB, b *block, nested bool) (err error) {
 			panic(b.sent)
 		}
 		return nil
-	})
+	}, opts...)
+	w.hear(err)
 	settle()
+	if !nested {
+		// a failed BEGIN runs nothing and its error is the block's result
+		for _, e := range w.h.Rec.Since(mark) {
+			if e.Kind != recdrv.KBegin {
+				continue
+			}
+			if e.Err != nil {
+				var inj *recdrv.ErrInjected
+				if fnRan {
+					w.addc("begin", "BEGIN of block T%d failed at the driver (%v) but the block's function ran", b.id, e.Err)
+				}
+				if err == nil || (e.Inject && !errors.As(err, &inj)) {
+					w.addc("begin", "BEGIN of block T%d failed at the driver with [%v]; Transaction returned [%v] instead of that error", b.id, e.Err, err)
+				}
+			}
+			break
+		}
+	}
 	if !nested && err == nil {
 		committed := false
 		for _, e := range w.h.Rec.Since(mark) {
@@ -559,13 +751,15 @@ func genManual(r *core.Rand) []manualStep {
 	for i := 0; i < n; i++ {
 		switch k := r.Intn(8); {
 		case k < 3:
-			steps = append(steps, manualStep{kind: "write", via: r.Intn(len(viaNames)) * r.Intn(2)})
+			steps = append(steps, manualStep{kind: core.Pick(r, writeKinds), via: r.Intn(len(viaNames)) * r.Intn(2)})
+		case k == 3 && r.Bool():
+			steps = append(steps, manualStep{kind: core.Pick(r, mutateKinds), via: r.Intn(len(viaNames)) * r.Intn(2)})
 		case k == 3:
 			steps = append(steps, manualStep{kind: "read", via: r.Intn(len(viaNames)) * r.Intn(2)})
 		case k < 6:
 			name := fmt.Sprintf("s%d", len(saves)+1)
 			saves = append(saves, name)
-			steps = append(steps, manualStep{kind: "save", name: name})
+			steps = append(steps, manualStep{kind: "savepoint", name: name})
 		default:
 			if len(saves) > 0 {
 				steps = append(steps, manualStep{kind: "rollto", name: core.Pick(r, saves)})
@@ -585,9 +779,23 @@ func genManual(r *core.Rand) []manualStep {
 	return steps
 }
 
-func (w *world) runManual(steps []manualStep) (finalErr error) {
-	tx := w.h.DB.Begin()
+func (w *world) runManual(base *gorm.DB, steps []manualStep) (finalErr error) {
+	var opts []*sql.TxOptions
+	if w.txOpts {
+		opts = append(opts, &sql.TxOptions{})
+	}
+	mark := w.h.Rec.Mark()
+	tx := base.Begin(opts...)
 	pre := w.snapshot()
+	w.hear(tx.Error)
+	for _, e := range w.h.Rec.Since(mark) {
+		if e.Kind == recdrv.KBegin && e.Err != nil {
+			var inj *recdrv.ErrInjected
+			if tx.Error == nil || (e.Inject && !errors.As(tx.Error, &inj)) {
+				w.addc("begin", "BEGIN failed at the driver with [%v]; the handle returned by Begin() carries [%v] instead of that error", e.Err, tx.Error)
+			}
+		}
+	}
 	if tx.Error != nil {
 		w.trace = append(w.trace, fmt.Sprintf("begin -> %v", tx.Error))
 		return tx.Error
@@ -629,8 +837,16 @@ func (w *world) runManual(steps []manualStep) (finalErr error) {
 			if e := w.read(derive(tx, s.via)); e != nil {
 				return abort(e)
 			}
-		case "save":
-			e := tx.SavePoint(s.name).Error
+		case "write-auto":
+			if e := w.writeAuto(derive(tx, s.via)); e != nil {
+				return abort(e)
+			}
+		case "update", "delete", "ghost-update", "ghost-delete", "update-ret", "delete-ret", "save", "exec":
+			if e := w.mutate(derive(tx, s.via), s.kind); e != nil {
+				return abort(e)
+			}
+		case "savepoint":
+			e := w.hear(tx.SavePoint(s.name).Error)
 			w.trace = append(w.trace, fmt.Sprintf("savepoint %s -> %v", s.name, e))
 			if e != nil {
 				return abort(e)
@@ -638,7 +854,7 @@ func (w *world) runManual(steps []manualStep) (finalErr error) {
 			saves[s.name] = w.snapshot()
 			order = append(order, s.name)
 		case "rollto":
-			e := tx.RollbackTo(s.name).Error
+			e := w.hear(tx.RollbackTo(s.name).Error)
 			w.trace = append(w.trace, fmt.Sprintf("rollback to %s -> %v", s.name, e))
 			if e != nil {
 				return abort(e)
@@ -656,7 +872,7 @@ func (w *world) runManual(steps []manualStep) (finalErr error) {
 			}
 			saves[s.name] = w.snapshot()
 		case "commit":
-			e := tx.Commit().Error
+			e := w.hear(tx.Commit().Error)
 			w.trace = append(w.trace, fmt.Sprintf("commit -> %v", e))
 			if e != nil {
 				w.state = pre
@@ -711,12 +927,71 @@ type program struct {
 	// viaConn: the outermost block (or the manual sequence) runs inside db.Connection(...), on a dedicated connection,
 	// which must go back to the pool whatever the outcome
 	viaConn bool
+	// rootForm: index into rootForms
+	rootForm int
+	// txOpts: Transaction / Begin are given an explicit zero *sql.TxOptions
+	txOpts bool
+	// errHandle: before the block / sequence proper, the same entry point (Transaction resp. Begin) is called once on a
+	// handle that already carries an error (errHandleForms); nothing may be started by it
+	errHandle int
+}
+
+// errHandleForms: 1 a session of the root handle with AddError(e); 2 the value returned by a First() that found no
+// row (a chain value carrying ErrRecordNotFound); 3 a session of such a value
+var errHandleForms = []string{"", "h.AddError(e)", "db.Where(..).First(&v) found nothing", "db.Where(..).First(&v).Session found nothing"}
+
+// errAttempt calls Transaction(fc) (manual: Begin()) on a handle that carries an error: fc must not run, the error of
+// the handle must come back as it is, and no transaction / connection may stay behind (the caller of Begin() does what
+// the documentation says: it looks at tx.Error and returns).
+func (w *world) errAttempt(form int, manual bool) {
+	eh := w.root()
+	switch form {
+	case 1:
+		eh.AddError(&sentinel{id: -1})
+	case 2, 3:
+		var kv KV
+		eh = eh.Where("id = ?", ghostKey).First(&kv)
+		w.note(eh.Error)
+		if form == 3 {
+			eh = eh.Session(&gorm.Session{})
+		}
+	}
+	want := eh.Error
+	if want == nil {
+		w.addc("errhandle", "harness: the handle (%s) carries no error", errHandleForms[form])
+		return
+	}
+	var got error
+	ran := false
+	what := "Transaction(fc)"
+	if manual {
+		what = "Begin()"
+		got = eh.Begin().Error
+	} else {
+		got = eh.Transaction(func(tx *gorm.DB) error {
+			ran = true
+			return nil
+		})
+	}
+	w.trace = append(w.trace, fmt.Sprintf("%s on a handle that carries [%v] (%s) -> %v", what, want, errHandleForms[form], got))
+	if ran {
+		w.addc("errhandle", "%s on a handle that carries the error [%v] ran its function", what, want)
+	}
+	if got != want {
+		w.addc("errhandle", "%s on a handle that carries the error [%v] returned [%v], not that error", what, want, got)
+	}
+	if ctr := w.h.Rec.Counters(); ctr.OpenTx != 0 {
+		w.addc("errhandle", "%s on a handle that carries the error [%v] left %d transaction(s) open at the driver", what, want, ctr.OpenTx)
+	}
+	if n := w.h.SQL.Stats().InUse; n != 0 {
+		w.addc("errhandle", "%s on a handle that carries the error [%v] left %d connection(s) checked out", what, want, n)
+	}
 }
 
 func genOutside(r *core.Rand) []item {
 	var out []item
 	for i, n := 0, r.Intn(4); i < n; i++ {
-		out = append(out, item{kind: core.Pick(r, []string{"write", "write", "read", "update", "delete", "ghost-update", "ghost-delete", "batch"}), via: r.Intn(len(viaNames)) * r.Intn(2)})
+		out = append(out, item{kind: core.Pick(r, []string{"write", "write", "write-auto", "read", "update", "delete", "ghost-update", "ghost-delete", "batch", "update-ret", "delete-ret", "save", "exec"}), via: r.Intn(len(viaNames)) * r.Intn(2)})
 	}
 	return out
 }
@@ -735,7 +1010,7 @@ func (w *world) runOutside(items []item, faultFree bool) {
 	w.outside = true
 	defer func() { w.outside = false }()
 	for _, it := range items {
-		db := derive(w.h.DB.Session(&gorm.Session{}), it.via)
+		db := derive(w.root(), it.via)
 		var e error
 		if strings.HasPrefix(it.kind, "ghost-") && w.k.skipDefault {
 			// without the default transaction a failing statement legitimately keeps what its hook wrote
@@ -744,6 +1019,8 @@ func (w *world) runOutside(items []item, faultFree bool) {
 		switch it.kind {
 		case "write":
 			e = w.write(db)
+		case "write-auto":
+			e = w.writeAuto(db)
 		case "read":
 			e = w.read(db)
 		case "batch":
@@ -788,28 +1065,52 @@ func execute(hi int, p program, failAt int) (w *world, calls int, retErr error, 
 	if _, err := h.SQL.Exec("DELETE FROM kvs; INSERT INTO kvs(id,v) VALUES (1,'seed1'),(2,'seed2')"); err != nil {
 		panic(err)
 	}
-	w = &world{h: h, k: cfgOf(hi), state: map[int64]string{1: "seed1", 2: "seed2"}, nextID: 100}
+	w = &world{h: h, k: cfgOf(hi), state: map[int64]string{1: "seed1", 2: "seed2"}, nextID: 100, rootForm: p.rootForm, txOpts: p.txOpts}
+	// session-level switches of the root handle count like the configured ones
+	switch rootForms[p.rootForm] {
+	case "db.Session{SkipDefaultTransaction}":
+		w.k.skipDefault = true
+	case "db.Session{DisableNestedTransaction}":
+		w.k.noNested = true
+	}
 	inj := &recdrv.ErrInjected{At: fmt.Sprintf("call %d", failAt)}
 	if failAt > 0 {
 		hook, _ := failNth(failAt, inj)
-		h.Rec.SetHook(hook)
+		h.Rec.SetHook(func(ev *recdrv.Event) error {
+			err := hook(ev)
+			if err != nil {
+				w.firedExplicit = w.explicit
+				w.firedAt = fmt.Sprintf("%s %s", ev.Kind, ev.Query)
+			}
+			return err
+		})
 	}
 	mark := h.Rec.Mark()
 	func() {
 		defer func() {
+			w.explicit = false
 			if r := recover(); r != nil {
 				panicVal = r
 			}
 		}()
 		w.runOutside(p.pre, failAt == 0)
-		if p.root != nil && p.viaConn {
-			retErr = h.DB.Connection(func(c *gorm.DB) error {
-				return w.runBlock(c.Session(&gorm.Session{}), p.root, false)
+		if p.errHandle != 0 {
+			w.errAttempt(p.errHandle, p.root == nil)
+		}
+		body := func(base *gorm.DB) error {
+			w.explicit = true
+			defer func() { w.explicit = false }()
+			if p.root != nil {
+				return w.runBlock(base, p.root, false)
+			}
+			return w.runManual(base, p.manual)
+		}
+		if p.viaConn {
+			retErr = w.root().Connection(func(c *gorm.DB) error {
+				return body(c.Session(&gorm.Session{}))
 			})
-		} else if p.root != nil {
-			retErr = w.runBlock(h.DB.Session(&gorm.Session{}), p.root, false)
 		} else {
-			retErr = w.runManual(p.manual)
+			retErr = body(w.root())
 		}
 	}()
 	func() {
@@ -830,6 +1131,9 @@ func execute(hi int, p program, failAt int) (w *world, calls int, retErr error, 
 	}
 	if render(got) != render(w.state) {
 		w.add("table holds [%s], the blocks' outcomes define [%s]", render(got), render(w.state))
+	}
+	if w.firedExplicit && !w.heard {
+		w.addc("unreported", "the driver call [%s] failed inside the block / sequence but no call of the program returned that error", w.firedAt)
 	}
 	if w.injectedSeen > 1 {
 		w.add("one driver call failed once, but %d statements returned that failure: an earlier failure was handed out again", w.injectedSeen)
@@ -884,7 +1188,7 @@ func expectedTop(b *block) (err *sentinel, pan *sentinel) {
 
 func run(c *core.Ctx) {
 	r := c.R
-	hi := c.Case % 8
+	hi := c.Case % nHandles
 	var p program
 	if c.Case%5 == 4 {
 		p.manual = genManual(r)
@@ -899,14 +1203,27 @@ func run(c *core.Ctx) {
 	if r.Bool() {
 		p.pre, p.post = genOutside(r), genOutside(r)
 	}
-	p.cold = (c.Case/8)%2 == 1
-	p.viaConn = p.root != nil && p.root.selfFinish == "" && (c.Case/16)%4 == 3
-	desc := cfgOf(hi).String() + " :: " + p.String()
+	p.cold = (c.Case/nHandles)%2 == 1
+	p.viaConn = (p.root == nil || p.root.selfFinish == "") && (c.Case/(2*nHandles))%4 == 3
+	if r.Bool() {
+		p.rootForm = r.Intn(len(rootForms))
+	}
+	p.txOpts = r.Chance(1, 4)
+	if r.Chance(1, 4) {
+		p.errHandle = r.Range(1, len(errHandleForms)-1)
+	}
+	desc := cfgOf(hi).String() + " :: on " + rootForms[p.rootForm] + " :: " + p.String()
 	if p.cold && cfgOf(hi).prep {
 		desc += " (cold statement cache)"
 	}
 	if p.viaConn {
 		desc += " (inside db.Connection)"
+	}
+	if p.txOpts {
+		desc += " (with &sql.TxOptions{})"
+	}
+	if p.errHandle != 0 {
+		desc += " (first the same entry point on a handle that carries an error: " + errHandleForms[p.errHandle] + ")"
 	}
 	c.Logf("PROGRAM %s", desc)
 	w, calls, err, pv := execute(hi, p, 0)
@@ -944,11 +1261,11 @@ func run(c *core.Ctx) {
 		problems = append(problems, fmt.Sprintf("unexpected panic %v", pv))
 	}
 	if len(problems) > 0 {
-		c.Violation("faultfree", map[string]interface{}{"program": desc, "problems": problems, "trace": w.trace})
+		c.Violation(sigOf("faultfree", w), map[string]interface{}{"program": desc, "problems": problems, "trace": w.trace})
 		return
 	}
 	depth := strings.Count(p.String(), "{")
-	c.Shape("prog", hi, depth, len(w.state), err != nil, pv != nil, p.root == nil)
+	c.Shape("prog", hi, depth, len(w.state), err != nil, pv != nil, p.root == nil, p.rootForm, p.errHandle)
 	if c.WantSample() && depth >= 3 {
 		c.Sample(map[string]interface{}{"program": desc, "trace": w.trace, "final_rows": render(w.state), "driver_calls": calls})
 	}
@@ -969,6 +1286,16 @@ func run(c *core.Ctx) {
 	}
 }
 
+// sigOf: the violation signature: the base class (faultfree / fault), or, when the run has a problem of one of the
+// narrow classes, base-<class> (errhandle: an entry point on a handle that carries an error; begin: a failed BEGIN ran
+// the block or its error did not come back; unreported: a failed driver call inside a block nobody heard of).
+func sigOf(base string, w *world) string {
+	if w.class != "" {
+		return base + "-" + w.class
+	}
+	return base
+}
+
 func runFault(c *core.Ctx, hi int, p program, desc string, k int) {
 	w, _, err, pv := execute(hi, p, k)
 	c.Inc("faulted_runs")
@@ -981,7 +1308,7 @@ func runFault(c *core.Ctx, hi int, p program, desc string, k int) {
 	}
 	_ = pv
 	if len(problems) > 0 {
-		c.Violation("fault", map[string]interface{}{"program": desc, "fault_at_call": k, "problems": problems, "trace": w.trace, "returned": fmt.Sprint(err)})
+		c.Violation(sigOf("fault", w), map[string]interface{}{"program": desc, "fault_at_call": k, "problems": problems, "trace": w.trace, "returned": fmt.Sprint(err)})
 		return
 	}
 	c.Shape("fault", hi, k, err != nil, pv != nil, len(w.state))
